@@ -1,7 +1,7 @@
 (* The single place where extraction directives live (trusted base). *)
 From Coq Require Import ExtrOcamlBasic ExtrOcamlString.
 From Coq Require Import ZArith.
-From Dwgrep Require Import IntModel CovModel Cmp Radix Value Words Tree Engine Build Den Scope Simplify.
+From Dwgrep Require Import IntModel CovModel Cmp Radix Value Words Tree Engine Build Den Scope Simplify ParseInt Escape.
 
 Extraction Blacklist String List Nat Int.
 
@@ -15,4 +15,5 @@ Extraction "extract/out/zwm.ml"
   CovM.w_contains CovM.w_overlaps CovM.w_empty CovM.w_length CovM.w_low CovM.w_high CovM.w_range CovM.w_cmp
   CovM.memb CovM.Invb
   CmpM.cmp_top CmpM.w_eq CmpM.w_lt CmpM.w_gt CmpM.w_ne CmpM.w_ge CmpM.w_le CmpM.comparable CmpM.cst_lt
-  ValueM.show ValueM.stack_eqb EngineM.run BuildM.build_program DenM.den DenM.den_stream ScopeM.well_scoped SimplifyM.simplify RadixM.show_dec RadixM.show_hex RadixM.show_oct RadixM.show_bin RadixM.read_digits.
+  ValueM.show ValueM.stack_eqb EngineM.run BuildM.build_program DenM.den DenM.den_stream ScopeM.well_scoped SimplifyM.simplify RadixM.show_dec RadixM.show_hex RadixM.show_oct RadixM.show_bin RadixM.read_digits
+  ParseIntM.parse_int EscapeM.esc EscapeM.lex_string.
